@@ -69,10 +69,16 @@ func c10cClassify(fn, msg string, f c10cFacts) string {
 		return "safetensors-shape-size-mismatch"
 	case f.adapter && f.rankNot2 && has(fn, "Adapter).repack") && has(msg, "Shape mismatch"):
 		return "adapter-tensor-rank"
-	case has(fn, ").repack") && has(msg, "integer divide by zero"):
-		return "repack-head-count-zero"
+	case has(fn, "convert.(*llamaAdapter).repack") && has(msg, "integer divide by zero"):
+		return "llama-adapter-head-count"
 	case has(fn, "convert.(*llamaAdapter).KV") && has(msg, "interface conversion"):
-		return "llama-adapter-head-count-type"
+		return "llama-adapter-head-count"
+	case has(fn, "Model).repack") && has(msg, "integer divide by zero"):
+		return "repack-head-count-zero"
+	case has(fn, "convert.(*gemmaModel).addOne") && (has(msg, "Shape mismatch") || has(msg, "negative dimension")):
+		return "gemma-norm-rank"
+	case has(fn, "convert.(*llamaModel).KV") && has(msg, "integer divide by zero"):
+		return "llama3-rope-head-dim"
 	case has(fn, "convert.parseAdditionalSpecialTokens") && has(msg, "interface conversion"):
 		return "special-tokens-map-type"
 	case has(fn, "convert.parseSentencePiece") && has(msg, "index out of range"):
@@ -238,8 +244,8 @@ func c10cPredict(c c10hf.Case, d c10hf.Dir) []string {
 				} `json:"rope_scaling"`
 			}
 			json.Unmarshal(f.Data, &r)
-			if h, n := u32("hidden_size"), u32("num_attention_heads"); r.RopeScaling.RopeType == "llama3" && n > 0 && h/n > 1<<25 {
-				hit("llama3-rope-factors-unbounded") // one rope factor per two head dimensions, head dimension = hidden_size / num_attention_heads
+			if h, n := u32("hidden_size"), u32("num_attention_heads"); r.RopeScaling.RopeType == "llama3" && n > 0 && h/n > 1<<20 {
+				hit("llama3-rope-head-dim") // one rope factor per two head dimensions, head dimension = hidden_size / num_attention_heads
 			}
 			if a.Architectures[0] == "MixtralForCausalLM" && u32("num_local_experts") > 1<<14 {
 				hit("mixtral-experts-unbounded") // one replacer pair per declared expert
